@@ -129,6 +129,7 @@ pub fn cases(prop: &str, seed: u64, tier: &str) -> Vec<String> {
             }
         }
         "C05" => return cases_c05(seed, tier),
+        "C17" => return cases_c17(seed, tier),
         "C11" => {
             let b = budget(tier, 25, 600);
             for i in 0..b.mappings {
@@ -584,6 +585,65 @@ pub fn cases_c05(seed: u64, tier: &str) -> Vec<String> {
         for l in text.lines().take(cap) {
             out.push(format!("R {}", hex(l.as_bytes())));
         }
+    }
+    out
+}
+
+// ---------------------------------------------------------------- C17: trace ASTs
+const T_CLASS: &[&str] = &["java.lang.RuntimeException", "a.b.C", "a$b", "é.Ü", "x", "com.example.Foo$1", "A-B", "<X>"];
+const T_MSG: &[&str] = &["boom", "Crash: again", "Caused by: inner", "at x.y(z:1)", "a: b: c", "é ü", "(", ")", ":", "    at a.b(c:1)", "x\ty"];
+const T_METH: &[&str] = &["m", "<init>", "<clinit>", "run", "é", "a$1", "lambda$x$0", "access$100"];
+const T_FILE: &[&str] = &["SourceFile", "Foo.java", "<unknown>", "é.kt", "a b", "x(y)", ""];
+
+pub fn cases_c17(seed: u64, tier: &str) -> Vec<String> {
+    let mut r = Rng(seed ^ 0xc17);
+    let b = budget(tier, 3000, 120000);
+    let mut out = Vec::new();
+    for _ in 0..b.mappings {
+        let depth = r.below(5);
+        let mut toks: Vec<String> = Vec::new();
+        for d in 0..=depth {
+            if d > 0 {
+                toks.push("c".into());
+            }
+            let has_exc = d > 0 || r.chance(3, 4);
+            if has_exc {
+                let c = *r.pick(T_CLASS);
+                let m = if r.chance(1, 2) { hex(r.pick(T_MSG).as_bytes()) } else { "~".into() };
+                toks.push(format!("e:{}:{}", hex(c.as_bytes()), m));
+            }
+            let cap = if r.chance(1, 12) { 21 } else { 4 };
+            let nf = if d == 0 && !has_exc { 1 + r.below(cap) } else { r.below(cap) };
+            for _ in 0..nf {
+                let line = match r.below(6) {
+                    0 => 0u64,
+                    1 => u64::MAX,
+                    2 => 1 << 32,
+                    _ => r.below(5000) as u64,
+                };
+                toks.push(format!(
+                    "f:{}:{}:{}:{}",
+                    hex(r.pick(T_CLASS).as_bytes()),
+                    hex(r.pick(T_METH).as_bytes()),
+                    hex(r.pick(T_FILE).as_bytes()),
+                    line
+                ));
+            }
+        }
+        out.push(format!("A {}", toks.join(" ")));
+    }
+    // single frames and throwables
+    for _ in 0..b.mappings / 4 {
+        let f = format!(
+            "at {}.{}({}:{})",
+            r.pick(T_CLASS),
+            r.pick(T_METH),
+            r.pick(T_FILE),
+            *r.pick(&[0u64, 1, 77, u64::MAX])
+        );
+        out.push(format!("FR {}", hex(f.as_bytes())));
+        let t = if r.chance(1, 2) { format!("{}: {}", r.pick(T_CLASS), r.pick(T_MSG)) } else { r.pick(T_CLASS).to_string() };
+        out.push(format!("TH {}", hex(t.as_bytes())));
     }
     out
 }
